@@ -5,6 +5,7 @@ import (
 	"io"
 	"math/rand"
 	"reflect"
+	"sort"
 	"strings"
 
 	kmip "github.com/smira/go-kmip"
@@ -171,9 +172,35 @@ func runC06(r *Result, d *drv.Driver, tier string, seed int64, replay string) {
 		// every two-way split offset
 		step := 1
 		if len(data) > 1500 {
-			step = 7 // long streams: every 7th offset plus the message boundaries (still exhaustive around headers below)
+			// long streams: a stride that keeps the sweep near 400 offsets, plus every offset within 16 bytes of a message boundary
+			step = 7
+			if len(data)/400 > step {
+				step = len(data)/400 | 1
+			}
 		}
+		cuts := map[int]bool{}
 		for cut := 0; cut <= len(data); cut += step {
+			cuts[cut] = true
+		}
+		if step > 1 {
+			off := 0
+			for _, w := range want {
+				var l int
+				fmt.Sscanf(w, "%d", &l)
+				off += l
+				for c := off - 16; c <= off+16; c++ {
+					if c >= 0 && c <= len(data) {
+						cuts[c] = true
+					}
+				}
+			}
+		}
+		cutList := make([]int, 0, len(cuts))
+		for c := range cuts {
+			cutList = append(cutList, c)
+		}
+		sort.Ints(cutList)
+		for _, cut := range cutList {
 			s := &splitSrc{data: data, cut: cut}
 			check(fmt.Sprintf("split-buffered@%d", cut), streamDecode(kmip.NewDecoder(s), ttypes, func() int { return s.pulled }, false), false)
 			s2 := &splitSrc{data: data, cut: cut}
